@@ -12,6 +12,7 @@ import (
 	"sort"
 	"strings"
 	"testing"
+	"time"
 
 	"github.com/makiuchi-d/gozxing"
 	"github.com/makiuchi-d/gozxing/datamatrix"
@@ -506,64 +507,163 @@ func TestLibStreamDecoderRandomBytes(t *testing.T) {
 	}
 }
 
+// ---------------------------------------------------------------------------
+// library high level encoder -> model stream decoder
+// ---------------------------------------------------------------------------
+
+// libHighLevel runs the library's EncodeHighLevel with a watchdog: some
+// inputs make it loop forever (finding (e) below).  A hung call leaks a
+// spinning goroutine, so callers stop fuzzing after the first few.
 func libHighLevel(msg string) (cw []byte, err error) {
-	defer func() {
-		if r := recover(); r != nil {
-			err = fmt.Errorf("PANIC: %v", r)
-		}
+	type result struct {
+		cw  []byte
+		err error
+	}
+	ch := make(chan result, 1)
+	go func() {
+		defer func() {
+			if r := recover(); r != nil {
+				ch <- result{nil, fmt.Errorf("PANIC: %v", r)}
+			}
+		}()
+		cw, err := libenc.EncodeHighLevel(msg, libenc.SymbolShapeHint_FORCE_NONE, nil, nil)
+		ch <- result{cw, err}
 	}()
-	return libenc.EncodeHighLevel(msg, libenc.SymbolShapeHint_FORCE_NONE, nil, nil)
+	select {
+	case r := <-ch:
+		return r.cw, r.err
+	case <-time.After(5 * time.Second):
+		return nil, errHang
+	}
 }
 
-// checkHighLevel encodes msg with the library and decodes the result with the
-// model.  It returns a non-empty description when something is off.
-func checkHighLevel(msg string) string {
+var errHang = errors.New("HANG: EncodeHighLevel did not return within 5s")
+
+// Outcome of encoding msg with the library and decoding with the model.
+type hlOutcome int
+
+const (
+	hlOK           hlOutcome = iota
+	hlEncoderError           // library returned an error / panicked / hung
+	hlEncoderWrong           // output does not represent msg; the library's own stream decoder agrees with the model about that
+	hlModelSuspect           // model and library stream decoder disagree about the output: suspect the model
+)
+
+// checkHighLevel encodes msg with the library and decodes the result with
+// the model.  Whenever the model does not get msg back, the library's own
+// stream decoder is consulted as a tie-breaker: if it reads the same (wrong)
+// text as the model, the encoder is at fault, not the model.
+func checkHighLevel(msg string) (hlOutcome, string) {
 	cw, err := libHighLevel(msg)
 	if err != nil {
-		return fmt.Sprintf("encoder error: %v", err)
+		return hlEncoderError, fmt.Sprintf("encoder error: %v", err)
 	}
-	ok := false
-	for _, s := range Symbols {
-		if s.DataCW == len(cw) {
-			ok = true
+	if _, ok := SmallestSymbol(len(cw), true, true); !ok || !isCapacity(len(cw)) {
+		return hlEncoderWrong, fmt.Sprintf("%d codewords is no symbol capacity: %v", len(cw), cw)
+	}
+	got, pad, merr := DecodeStreamPad(cw)
+	if merr == nil && got == msg {
+		if !bytes.Equal(cw, PadStream(cw[:pad], len(cw))) {
+			return hlEncoderWrong, fmt.Sprintf("codewords %v: bad padding from index %d", cw, pad)
+		}
+		return hlOK, ""
+	}
+	lib, lerr := libStream(cw)
+	desc := fmt.Sprintf("codewords %v: model reads %q, %v; library decoder reads %q, %v", cw, got, merr, lib, lerr)
+	if merr != nil && lerr != nil {
+		return hlEncoderWrong, desc
+	}
+	if merr == nil && lerr == nil {
+		if eq, _ := sameText(got, lib); eq {
+			return hlEncoderWrong, desc
 		}
 	}
-	if !ok {
-		return fmt.Sprintf("%d codewords is no symbol capacity: %v", len(cw), cw)
+	return hlModelSuspect, desc
+}
+
+func isCapacity(n int) bool {
+	for _, s := range Symbols {
+		if s.DataCW == n {
+			return true
+		}
 	}
-	got, pad, err := DecodeStreamPad(cw)
-	if err != nil {
-		return fmt.Sprintf("codewords %v: model error %v", cw, err)
+	return false
+}
+
+// classifyEncoderDefect names the known signatures.
+func classifyEncoderDefect(msg string) string {
+	switch {
+	case isBase256ExactFill(msg):
+		return "(c) Base 256 exact fill"
+	case isEdifactEarlyEnd(msg):
+		return "(d) EDIFACT ended without unlatch"
 	}
-	if got != msg {
-		return fmt.Sprintf("codewords %v decode to %q", cw, got)
+	return "(f) characters dropped / other"
+}
+
+type hlTally struct {
+	t        *testing.T
+	n        int
+	byClass  map[string]int
+	examples map[string]string
+	suspects int
+	hangs    int
+}
+
+func newTally(t *testing.T) *hlTally {
+	return &hlTally{t: t, byClass: map[string]int{}, examples: map[string]string{}}
+}
+
+func (h *hlTally) add(msg string) {
+	h.n++
+	out, desc := checkHighLevel(msg)
+	switch out {
+	case hlOK:
+	case hlModelSuspect:
+		h.suspects++
+		if h.suspects <= 20 {
+			h.t.Errorf("MODEL SUSPECT %q: %s", msg, desc)
+		}
+	case hlEncoderError:
+		class := "(e) encoder error/hang"
+		if strings.Contains(desc, "HANG") {
+			h.hangs++
+		}
+		h.byClass[class]++
+		if ex, ok := h.examples[class]; !ok || len(msg) < len(ex) {
+			h.examples[class] = msg
+		}
+	case hlEncoderWrong:
+		class := classifyEncoderDefect(msg)
+		h.byClass[class]++
+		if ex, ok := h.examples[class]; !ok || len(msg) < len(ex) {
+			h.examples[class] = msg
+		}
 	}
-	if !bytes.Equal(cw, PadStream(cw[:pad], len(cw))) {
-		return fmt.Sprintf("codewords %v: bad padding from index %d", cw, pad)
+}
+
+func (h *hlTally) report() {
+	h.t.Logf("%d strings, %d model suspects", h.n, h.suspects)
+	keys := []string{}
+	for k := range h.byClass {
+		keys = append(keys, k)
 	}
-	return ""
+	sort.Strings(keys)
+	for _, k := range keys {
+		ex := h.examples[k]
+		_, desc := checkHighLevel(ex)
+		h.t.Logf("library encoder defect %s: %d inputs, shortest %q: %s", k, h.byClass[k], ex, desc)
+	}
 }
 
 func TestLibHighLevelEncoderShortStrings(t *testing.T) {
 	// exhaustive over a small alphabet that reaches every encodation
 	alphabet := []rune{'A', 'b', '7', ' ', '*', '\r', '!', '^', '\x00', 'é', 'ÿ', '\x80'}
-	bad, n, exactFill, edifactEOD := 0, 0, 0, 0
+	tally := newTally(t)
 	var rec func(prefix []rune, depth int)
 	rec = func(prefix []rune, depth int) {
 		if len(prefix) > 0 {
-			n++
-			if msg := checkHighLevel(string(prefix)); msg != "" {
-				if isBase256ExactFill(string(prefix)) {
-					exactFill++
-				} else if isEdifactEarlyEnd(string(prefix)) {
-					edifactEOD++
-				} else {
-					bad++
-					if bad <= 20 {
-						t.Errorf("%q: %s", string(prefix), msg)
-					}
-				}
-			}
+			tally.add(string(prefix))
 		}
 		if depth == 0 {
 			return
@@ -573,7 +673,7 @@ func TestLibHighLevelEncoderShortStrings(t *testing.T) {
 		}
 	}
 	rec(nil, 4)
-	t.Logf("%d strings, %d unexplained problems, %d instances of known issue (c), %d of finding (d)", n, bad, exactFill, edifactEOD)
+	tally.report()
 }
 
 func TestLibHighLevelEncoderRuns(t *testing.T) {
@@ -587,8 +687,8 @@ func TestLibHighLevelEncoderRuns(t *testing.T) {
 		"\x00\x01\x7f\u0080\u0081éñÿ~{}`",
 	}
 	rng := rand.New(rand.NewSource(7))
-	bad, exactFill, edifactEOD := 0, 0, 0
-	for iter := 0; iter < 6000; iter++ {
+	tally := newTally(t)
+	for iter := 0; iter < 20000 && tally.hangs < 2; iter++ {
 		var msg []rune
 		for runs := 1 + rng.Intn(4); runs > 0; runs-- {
 			cl := []rune(classes[rng.Intn(len(classes))])
@@ -596,29 +696,31 @@ func TestLibHighLevelEncoderRuns(t *testing.T) {
 				msg = append(msg, cl[rng.Intn(len(cl))])
 			}
 		}
-		if d := checkHighLevel(string(msg)); d != "" {
-			// known issue (c): a Base 256 run that exactly fills the symbol
-			if isBase256ExactFill(string(msg)) {
-				exactFill++
-				continue
-			}
-			// finding (d): EDIFACT left without unlatch too early
-			if isEdifactEarlyEnd(string(msg)) {
-				edifactEOD++
-				if edifactEOD <= 3 {
-					cw, _ := libHighLevel(string(msg))
-					lib, lerr := libStream(cw)
-					t.Logf("finding (d) %q -> %v; library's own decoder gives %q, %v", string(msg), cw, lib, lerr)
-				}
-				continue
-			}
-			bad++
-			if bad <= 20 {
-				t.Errorf("%q: %s", string(msg), d)
-			}
-		}
+		tally.add(string(msg))
 	}
-	t.Logf("%d unexplained problems, %d instances of known issue (c), %d of finding (d)", bad, exactFill, edifactEOD)
+	tally.report()
+}
+
+// Concrete inputs for the library encoder defects found while validating the
+// model; each is logged with what the library produces today.
+func TestLibHighLevelEncoderFindings(t *testing.T) {
+	for _, c := range []struct{ what, msg string }{
+		{"(c) Base 256 exact fill (5 codewords would exactly fill 12x12)", "ééé"},
+		{"(d) EDIFACT ended without unlatch, then 2-codeword character", "^1A/AB8Cÿ"},
+		{"(f) X12: leading characters dropped", "C]Y XC\rB*9\r>I7"},
+		{"(f) X12: characters before a non-X12 character dropped", "**>\r0A1Z9P7GITQ8S=9X0YA\r"},
+		{"(f) Text: shift written, character and next one dropped", "mb tpkpuD7R\u0080"},
+	} {
+		out, desc := checkHighLevel(c.msg)
+		if out == hlModelSuspect {
+			t.Errorf("%s %q: MODEL SUSPECT: %s", c.what, c.msg, desc)
+			continue
+		}
+		t.Logf("%s\n        %q: outcome %d %s", c.what, c.msg, out, desc)
+	}
+	// (e) these inputs make EncodeHighLevel loop forever; not executed by
+	// default because a hung goroutine cannot be killed
+	t.Logf("(e) EncodeHighLevel hangs (not run here) on %q and %q", "\\@^\\[=@/5q  :![0\"3", "A#Y#B1\\*0*Y\r0:C>/@")
 }
 
 // isEdifactEarlyEnd recognises finding (d): the library's encoder ended an
